@@ -143,4 +143,92 @@ theorem lookupP_perm {n : Str} {ps qs : List (Str × Str)} (h : ps.Perm qs) (hn 
     have : (names _).Nodup := (List.Perm.nodup_iff (h1.map (fun x : Str × Str => x.1))).mp hn
     rw [ih1 hn, ih2 this]
 
+/-! ### characters ↔ tokens: the tokenizer on a PI written as pseudo-attributes -/
+
+/-- one pseudo-attribute as written: name, the `=` with any blanks around it, the quoted value, the white space after it -/
+structure Piece where
+  name : Str
+  eq : Str
+  value : Str
+  sep : Str
+deriving Repr
+
+def renderPieces : List Piece → Str
+  | [] => []
+  | p :: r => p.name ++ (p.eq ++ (p.value ++ (p.sep ++ renderPieces r)))
+
+def pairsOf (ps : List Piece) : List (Str × Str) := ps.map fun p => (p.name, p.value)
+
+/-- a non-empty run without delimiter characters -/
+def Clean (fixed : Bool) (w : Str) : Prop := w ≠ [] ∧ ∀ c ∈ w, isDelim fixed c = false
+
+def AllDelim (fixed : Bool) (d : Str) : Prop := ∀ c ∈ d, isDelim fixed c = true
+
+/-- well-formed as far as the tokenizer is concerned: names and quoted values contain no delimiter, `eq` is a non-empty
+run of delimiters (it contains the `=`), pseudo-attributes are separated by at least one delimiter -/
+def WF (fixed : Bool) : List Piece → Prop
+  | [] => True
+  | p :: r => Clean fixed p.name ∧ Clean fixed p.value ∧ (p.eq ≠ [] ∧ AllDelim fixed p.eq) ∧ AllDelim fixed p.sep ∧
+      (p.sep ≠ [] ∨ r = []) ∧ WF fixed r
+
+theorem tokensAux_clean (fixed : Bool) (w : Str) : ∀ (cur rest : Str), (∀ c ∈ w, isDelim fixed c = false) →
+    tokensAux fixed (w ++ rest) cur = tokensAux fixed rest (cur ++ w) := by
+  induction w with
+  | nil => intro cur rest _; simp
+  | cons c w ih =>
+    intro cur rest h
+    have hc : isDelim fixed c = false := h c (by simp)
+    simp only [List.cons_append, tokensAux, hc, Bool.false_eq_true, ↓reduceIte]
+    rw [ih (cur ++ [c]) rest (fun x hx => h x (by simp [hx]))]
+    simp
+
+theorem tokensAux_delims_empty (fixed : Bool) (d : Str) : ∀ (rest : Str), AllDelim fixed d →
+    tokensAux fixed (d ++ rest) [] = tokensAux fixed rest [] := by
+  induction d with
+  | nil => intro rest _; rfl
+  | cons c d ih =>
+    intro rest h
+    have hc : isDelim fixed c = true := h c (by simp)
+    simp only [List.cons_append, tokensAux, hc, ↓reduceIte, List.isEmpty_nil]
+    exact ih rest (fun x hx => h x (by simp [hx]))
+
+theorem tokensAux_delims (fixed : Bool) (d : Str) (cur rest : Str) (hd : d ≠ []) (h : AllDelim fixed d) (hc : cur ≠ []) :
+    tokensAux fixed (d ++ rest) cur = cur :: tokensAux fixed rest [] := by
+  cases d with
+  | nil => exact absurd rfl hd
+  | cons c d =>
+    have hcd : isDelim fixed c = true := h c (by simp)
+    have hne : cur.isEmpty = false := by cases cur <;> simp_all
+    simp only [List.cons_append, tokensAux, hcd, ↓reduceIte, hne, Bool.false_eq_true]
+    rw [tokensAux_delims_empty fixed d rest (fun x hx => h x (by simp [hx]))]
+
+theorem tokensAux_end (fixed : Bool) (cur : Str) (hc : cur ≠ []) : tokensAux fixed [] cur = [cur] := by
+  have hne : cur.isEmpty = false := by cases cur <;> simp_all
+  simp [tokensAux, hne]
+
+/-- **tokenizer on pseudo-attributes**: name token, quoted-value token, for each pseudo-attribute in turn -/
+theorem tokens_render (fixed : Bool) (ps : List Piece) (h : WF fixed ps) :
+    tokens fixed (renderPieces ps) = toks (pairsOf ps) := by
+  unfold tokens
+  induction ps with
+  | nil => simp [renderPieces, tokensAux, toks, pairsOf]
+  | cons p r ih =>
+    obtain ⟨hn, hv, he, hs, hlast, hr⟩ := h
+    simp only [renderPieces, pairsOf, List.map_cons, toks]
+    rw [tokensAux_clean fixed p.name [] _ hn.2, List.nil_append,
+        tokensAux_delims fixed p.eq p.name _ he.1 he.2 hn.1,
+        tokensAux_clean fixed p.value [] _ hv.2, List.nil_append]
+    rcases hlast with hne | hre
+    · rw [tokensAux_delims fixed p.sep p.value _ hne hs hv.1]
+      have := ih hr
+      simp only [pairsOf] at this
+      rw [this]
+    · subst hre
+      simp only [renderPieces, List.append_nil, List.map_nil, toks]
+      by_cases hse : p.sep = []
+      · rw [hse, tokensAux_end fixed p.value hv.1]
+      · have := tokensAux_delims fixed p.sep p.value [] hse hs hv.1
+        simp only [List.append_nil] at this
+        rw [this]; simp [tokensAux]
+
 end XalanModel.C05.PI
